@@ -93,6 +93,7 @@ func runC15(c *Ctx) {
 		}
 	}
 	r.Floor("leaf-case", len(collectors), 5, "collectors")
+	c15ResultSources(c, p)
 	if len(collectors) < 5 {
 		return
 	}
@@ -359,4 +360,192 @@ func c15GenericWalk(c *Ctx, p *core.Prog, kn string, fn *ssa.Function) {
 	} else {
 		r.OK("generic-walk", key, p.Pos(ch.Pos()), "every non-nil path reaches the Children() loop")
 	}
+}
+
+// c15ResultSources: every name slice handed out by the extraction API is duplicate-free by construction:
+// it is built by ranging over a map, or every append into it is guarded by a membership test on the appended key.
+func c15ResultSources(c *Ctx, p *core.Prog) {
+	r := c.R
+	r.Rule("dedup-append", "in pkg/gosqlx every loop that builds a []string / []QualifiedName result appends either while ranging over a map (keys are unique) or under a `!seen[key]` test of the very value it appends: an append reachable without that test can emit a name twice")
+	n := 0
+	for _, fn := range p.SrcFuncs("pkg/gosqlx") {
+		if fn.Parent() != nil {
+			continue
+		}
+		// only functions that return a name slice
+		res := fn.Signature.Results()
+		returnsNames := false
+		for i := 0; i < res.Len(); i++ {
+			if sl, ok := res.At(i).Type().Underlying().(*types.Slice); ok {
+				if b, ok := sl.Elem().Underlying().(*types.Basic); ok && b.Info()&types.IsString != 0 {
+					returnsNames = true
+				}
+				if nn := core.NamedOf(sl.Elem()); nn != nil && nn.Obj().Name() == "QualifiedName" {
+					returnsNames = true
+				}
+			}
+		}
+		if !returnsNames {
+			continue
+		}
+		lb := loopBlocks(fn)
+		seq := 0
+		for _, b := range fn.Blocks {
+			if !lb[b] {
+				continue
+			}
+			for _, in := range b.Instrs {
+				call, ok := in.(*ssa.Call)
+				if !ok || !core.IsBuiltinCall(&call.Call, "append") || len(call.Call.Args) < 2 {
+					continue
+				}
+				// does the appended slice reach a return?
+				if !reachesReturnValue(call, 0, map[ssa.Value]bool{}) {
+					continue
+				}
+				seq++
+				n++
+				key := core.FnName(fn) + sprintf("|append#%d", seq)
+				// the appended element(s)
+				var elems []ssa.Value
+				if sl, ok := call.Call.Args[1].(*ssa.Slice); ok {
+					if al, ok := sl.X.(*ssa.Alloc); ok {
+						for _, ref := range core.Referrers(al) {
+							if ia, ok := ref.(*ssa.IndexAddr); ok {
+								for _, r2 := range core.Referrers(ia) {
+									if st, ok := r2.(*ssa.Store); ok {
+										elems = append(elems, st.Val)
+									}
+								}
+							}
+						}
+					}
+				}
+				// (a) loop ranges over a map
+				overMap := false
+				for _, b2 := range fn.Blocks {
+					for _, i2 := range b2.Instrs {
+						if rg, ok := i2.(*ssa.Range); ok {
+							if _, isMap := rg.X.Type().Underlying().(*types.Map); isMap && lb[b2] || isMapRangeFor(rg, b) {
+								overMap = true
+							}
+						}
+					}
+				}
+				// (b) guarded by a lookup of the appended value
+				guarded := false
+				for _, cd := range core.ControlDeps(b) {
+					var lk *ssa.Lookup
+					var walk func(v ssa.Value, d int)
+					walk = func(v ssa.Value, d int) {
+						if d > 5 || lk != nil {
+							return
+						}
+						switch x := v.(type) {
+						case *ssa.Lookup:
+							if _, isMap := x.X.Type().Underlying().(*types.Map); isMap {
+								lk = x
+							}
+						case *ssa.UnOp:
+							walk(x.X, d+1)
+						case *ssa.Extract:
+							walk(x.Tuple, d+1)
+						case *ssa.BinOp:
+							walk(x.X, d+1)
+							walk(x.Y, d+1)
+						}
+					}
+					walk(cd.If.Cond, 0)
+					if lk == nil || !cd.If.Block().Dominates(b) {
+						continue // no test, or a test that some path to the append goes around
+					}
+					for _, e := range elems {
+						if e == lk.Index || sameFieldValue(e, lk.Index) {
+							guarded = true
+						}
+					}
+				}
+				switch {
+				case overMap:
+					r.OK("dedup-append", key, p.Pos(call.Pos()), "appends while ranging over a map")
+				case guarded:
+					r.OK("dedup-append", key, p.Pos(call.Pos()), "append under a membership test of the appended key")
+				default:
+					r.Violate("dedup-append", key, p.Pos(call.Pos()), "this append into a returned name list can run without a `seen` test of the appended value (and the loop does not range over a map): the result can contain a name twice")
+				}
+			}
+		}
+	}
+	r.Extra("result_appends_in_loops", n)
+}
+
+func isMapRangeFor(rg *ssa.Range, b *ssa.BasicBlock) bool {
+	_, isMap := rg.X.Type().Underlying().(*types.Map)
+	if !isMap {
+		return false
+	}
+	// the append block is inside the loop driven by this Range's Next
+	for _, ref := range core.Referrers(rg) {
+		if nx, ok := ref.(*ssa.Next); ok {
+			if core.BlockReaches(nx.Block(), b) && core.BlockReaches(b, nx.Block()) {
+				return true
+			}
+		}
+	}
+	return false
+}
+
+func reachesReturnValue(v ssa.Value, depth int, seen map[ssa.Value]bool) bool {
+	if depth > 8 || seen[v] {
+		return false
+	}
+	seen[v] = true
+	for _, ref := range core.Referrers(v) {
+		switch x := ref.(type) {
+		case *ssa.Return:
+			return true
+		case *ssa.Phi:
+			if reachesReturnValue(x, depth+1, seen) {
+				return true
+			}
+		case *ssa.Call:
+			if core.IsBuiltinCall(&x.Call, "append") && len(x.Call.Args) > 0 && x.Call.Args[0] == v {
+				if reachesReturnValue(x, depth+1, seen) {
+					return true
+				}
+			}
+		case *ssa.Store:
+			if a, ok := x.Addr.(*ssa.Alloc); ok && x.Val == v {
+				for _, r2 := range core.Referrers(a) {
+					if ld, ok := r2.(*ssa.UnOp); ok && reachesReturnValue(ld, depth+1, seen) {
+						return true
+					}
+				}
+			}
+		case *ssa.Slice:
+			if reachesReturnValue(x, depth+1, seen) {
+				return true
+			}
+		}
+	}
+	return false
+}
+
+// sameFieldValue: two loads of the same field of the same object (column.Name read twice).
+func sameFieldValue(a, b ssa.Value) bool {
+	fa, ok1 := a.(*ssa.Field)
+	fb, ok2 := b.(*ssa.Field)
+	if ok1 && ok2 {
+		return fa.X == fb.X && fa.Field == fb.Field
+	}
+	ua, ok1 := a.(*ssa.UnOp)
+	ub, ok2 := b.(*ssa.UnOp)
+	if ok1 && ok2 {
+		xa, ok3 := ua.X.(*ssa.FieldAddr)
+		xb, ok4 := ub.X.(*ssa.FieldAddr)
+		if ok3 && ok4 {
+			return xa.X == xb.X && xa.Field == xb.Field
+		}
+	}
+	return false
 }
